@@ -117,6 +117,9 @@ def _F(x: Any) -> Optional[Fraction]:
     return Fraction(x)
 
 
+HOST_CATS = ("cpu_op", "user_annotation", "cuda_runtime", "cuda_driver", "python_function", "Operator")
+
+
 def check_tree(res: Result, rows_list: List[Dict[str, Any]], si: int, oi: int, build_no: int, what: str) -> Dict[int, Dict[str, Any]]:
     """C13 clauses on one frame as it stands after a build."""
     rows = {r["index"]: r for r in rows_list if isinstance(r.get("index"), int)}
@@ -142,6 +145,10 @@ def check_tree(res: Result, rows_list: List[Dict[str, Any]], si: int, oi: int, b
                 res.violate("C13", f"device-parent/{tag}", {"id": i, "parent": p, "link": link, "what": what}, si, oi)
                 continue
         if not is_node:
+            if stream == -1 and r.get("cat") in HOST_CATS and isinstance(d, int):
+                # a host event that no call stack contains: every host event of a built rank is a node of its
+                # thread's stack, with a depth of 0 or more
+                res.violate("C13", f"host-event-outside-call-stacks/{tag}", {"id": i, "depth": d, "parent": p, "what": what}, si, oi)
             continue
         # parent must exist
         if isinstance(p, int) and p >= 0 and p not in rows:
@@ -383,9 +390,6 @@ def expected_patterns(rows: Dict[int, Dict[str, Any]], operator: str, min_len: i
         rec[1] += sum(Fraction(rows[c]["dur"]) for c in kern)
         rec[2] += Fraction(rows[i]["dur"])
     return out
-
-
-HOST_CATS = ("cpu_op", "user_annotation", "cuda_runtime", "cuda_driver", "python_function", "Operator")
 
 
 def host_ops_outside_stacks(rows: Dict[int, Dict[str, Any]], operator: str) -> List[int]:
